@@ -274,56 +274,98 @@ Proof.
     + apply nth_overflow. rewrite repeat_length. exact G.
 Qed.
 
-(* the two real programs pass the bounds check: finite sweep (vm_compute, item values symbolic) over init <= 8,
-   every index <= init, 0..4 inserted / removed items -- this covers the boundaries index = 0, count-cnt, count-1,
-   count and index+cnt </=/> count of the two branches of InsertNogrow *)
-Definition sweep_insert (v1 v2 v3 v4 : Z) : bool :=
-  forallb (fun init => forallb (fun index => forallb (fun cnt =>
-    match check init (init + cnt) (insert_prog init index (firstn cnt [v1; v2; v3; v4])) with
-    | Some m => Nat.eqb m (init + cnt) | None => false end)
-    (seq 0 5)) (seq 0 (S init))) (seq 0 9).
-Definition sweep_remove : bool :=
-  forallb (fun init => forallb (fun index => forallb (fun cnt =>
-    if Nat.leb (index + cnt) init then
-      match check init init (remove_prog init index cnt) with
-      | Some m => Nat.eqb m (init - cnt) | None => false end
-    else true)
-    (seq 0 5)) (seq 0 (S init))) (seq 0 9).
-Lemma sweep_insert_ok v1 v2 v3 v4 : sweep_insert v1 v2 v3 v4 = true. Proof. vm_compute. reflexivity. Qed.
-Lemma sweep_remove_ok : sweep_remove = true. Proof. vm_compute. reflexivity. Qed.
-
-Lemma short_list (items : list Z) : (length items <= 4)%nat ->
-  exists v1 v2 v3 v4, items = firstn (length items) [v1; v2; v3; v4].
+(* ---- the two real programs pass the static bounds check, for ALL sizes (induction over the loops) *)
+Lemma check_app cap : forall p q n, check n cap (p ++ q) =
+  match check n cap p with Some m => check m cap q | None => None end.
 Proof.
-  destruct items as [|a [|b [|c0 [|d [|e r]]]]]; simpl; intros H; try lia.
-  - exists 0%Z, 0%Z, 0%Z, 0%Z; reflexivity.
-  - exists a, 0%Z, 0%Z, 0%Z; reflexivity.
-  - exists a, b, 0%Z, 0%Z; reflexivity.
-  - exists a, b, c0, 0%Z; reflexivity.
-  - exists a, b, c0, d; reflexivity.
+  induction p as [|ins r IH]; intros q n; [reflexivity|].
+  change ((ins :: r) ++ q) with (ins :: (r ++ q)). rewrite (check_cons n cap ins (r ++ q)), (check_cons n cap ins r).
+  destruct (check n cap [ins]) as [m|]; [apply IH|reflexivity].
 Qed.
 
-Lemma insert_prog_checked init index items : (init <= 8)%nat -> (index <= init)%nat -> (length items <= 4)%nat ->
+Lemma check_addbackmove_seq cap : forall k s n, (s + k <= n)%nat -> (n + k <= cap)%nat ->
+  check n cap (map IAddBackMove (seq s k)) = Some (n + k)%nat.
+Proof.
+  induction k as [|k IH]; intros s n H1 H2; simpl; [f_equal; lia|].
+  destruct (Nat.ltb_spec s n); [|lia]. destruct (Nat.ltb_spec n cap); [|lia]. simpl.
+  rewrite IH; [f_equal; lia|lia|lia].
+Qed.
+
+Definition assign_ok (n : nat) (ins : instr) : Prop :=
+  match ins with
+  | IAssignMove i j => (i < n)%nat /\ (j < n)%nat /\ i <> j
+  | IAssignCopy _ j => (j < n)%nat
+  | _ => False
+  end.
+
+Lemma check_assign_list cap n : forall l, Forall (assign_ok n) l -> check n cap l = Some n.
+Proof.
+  induction l as [|ins r IH]; intros H; [reflexivity|]. inversion H as [|x y Hx Hy]; subst.
+  destruct ins; simpl in Hx; try contradiction; simpl.
+  - destruct Hx as (H1 & H2 & H3). destruct (Nat.ltb_spec i n); [|lia]. destruct (Nat.ltb_spec j n); [|lia].
+    destruct (Nat.eqb_spec i j); [contradiction|]. simpl. apply IH. exact Hy.
+  - destruct (Nat.ltb_spec j n); [|lia]. apply IH. exact Hy.
+Qed.
+
+Lemma check_addbackcopy cap : forall l n, (n + length l <= cap)%nat ->
+  check n cap (map IAddBackCopy l) = Some (n + length l)%nat.
+Proof.
+  induction l as [|v l IH]; intros n H; simpl in *; [f_equal; lia|].
+  destruct (Nat.ltb_spec n cap); [|lia]. rewrite IH; [f_equal; lia|lia].
+Qed.
+
+Lemma check_move_then_copy cap : forall (l : list (nat * Z)) n,
+  (forall iv, In iv l -> (fst iv < n)%nat) -> (n + length l <= cap)%nat ->
+  check n cap (flat_map (fun iv => [IAddBackMove (fst iv); IAssignCopy (snd iv) (fst iv)]) l) = Some (n + length l)%nat.
+Proof.
+  induction l as [|[i v] l IH]; intros n H1 H2; simpl in *; [f_equal; lia|].
+  assert (Hi : (i < n)%nat) by (apply (H1 (i, v)); left; reflexivity).
+  destruct (Nat.ltb_spec i n); [|lia]. destruct (Nat.ltb_spec n cap); [|lia]. simpl.
+  destruct (Nat.ltb_spec i (S n)); [|lia].
+  rewrite IH; [f_equal; lia| |lia].
+  intros iv Hiv. specialize (H1 iv (or_intror Hiv)). lia.
+Qed.
+
+Lemma insert_prog_checked init index items : (index <= init)%nat ->
   check init (init + length items) (insert_prog init index items) = Some (init + length items)%nat.
 Proof.
-  intros Hi Hx Hc. destruct (short_list items Hc) as (v1 & v2 & v3 & v4 & E).
-  pose proof (sweep_insert_ok v1 v2 v3 v4) as S. unfold sweep_insert in S.
-  assert (S1 := proj1 (forallb_forall _ _) S init ltac:(apply in_seq; lia)). cbv beta in S1.
-  assert (S2 := proj1 (forallb_forall _ _) S1 index ltac:(apply in_seq; lia)). cbv beta in S2.
-  assert (S' := proj1 (forallb_forall _ _) S2 (length items) ltac:(apply in_seq; lia)). cbv beta in S'. rewrite <- E in S'.
-  destruct (check init (init + length items) (insert_prog init index items)) as [m|]; [|discriminate S'].
-  f_equal. apply Nat.eqb_eq. exact S'.
+  intros Hx. unfold insert_prog. set (cnt := length items).
+  destruct (Nat.eqb_spec cnt 0) as [E0|N0]; [simpl; f_equal; lia|].
+  destruct (Nat.ltb_spec (index + cnt) init) as [LA|LB].
+  - (* the new items fit below the old end: move the tail up, shift the middle, assign the range *)
+    assert (H1 : check init (init + cnt) (map IAddBackMove (seq (init - cnt) cnt)) = Some (init + cnt)%nat)
+      by (apply check_addbackmove_seq; lia).
+    assert (H2 : check (init + cnt) (init + cnt)
+              (map (fun i => IAssignMove (i - 1) (i + cnt - 1)) (rev (seq (S index) (init - cnt - index)))) = Some (init + cnt)%nat).
+    { apply check_assign_list. apply Forall_forall. intros ins Hin. apply in_map_iff in Hin. destruct Hin as (i & <- & Hi).
+      apply in_rev in Hi. apply in_seq in Hi. simpl. lia. }
+    assert (H3 : check (init + cnt) (init + cnt)
+              (map (fun iv : nat * Z => IAssignCopy (snd iv) (fst iv)) (combine (seq index cnt) items)) = Some (init + cnt)%nat).
+    { apply check_assign_list. apply Forall_forall. intros ins Hin. apply in_map_iff in Hin.
+      destruct Hin as ([i v] & <- & Hc). apply in_combine_l in Hc. apply in_seq in Hc. simpl. lia. }
+    rewrite check_app, H1. cbv iota beta. rewrite check_app, H2. cbv iota beta. exact H3.
+  - (* the new items reach the old end: append the surplus, then move each tail item up and overwrite it *)
+    assert (Lk : length (skipn (init - index) items) = (cnt - (init - index))%nat) by (rewrite skipn_length; reflexivity).
+    assert (Lc : length (combine (seq index (init - index)) items) = (init - index)%nat)
+      by (rewrite combine_length, seq_length; fold cnt; lia).
+    assert (H1 : check init (init + cnt) (map IAddBackCopy (skipn (init - index) items)) = Some (index + cnt)%nat).
+    { rewrite check_addbackcopy; [f_equal; rewrite Lk; lia|rewrite Lk; lia]. }
+    assert (H2 : check (index + cnt) (init + cnt)
+              (flat_map (fun iv : nat * Z => [IAddBackMove (fst iv); IAssignCopy (snd iv) (fst iv)]) (combine (seq index (init - index)) items))
+              = Some (init + cnt)%nat).
+    { rewrite check_move_then_copy; [f_equal; rewrite Lc; lia| |rewrite Lc; lia].
+      intros iv Hiv. destruct iv as [i v]. apply in_combine_l in Hiv. apply in_seq in Hiv. simpl. lia. }
+    rewrite check_app, H1. cbv iota beta. exact H2.
 Qed.
 
-Lemma remove_prog_checked init index cnt : (init <= 8)%nat -> (cnt <= 4)%nat -> (index + cnt <= init)%nat ->
+Lemma remove_prog_checked init index cnt : (index + cnt <= init)%nat ->
   check init init (remove_prog init index cnt) = Some (init - cnt)%nat.
 Proof.
-  intros Hi Hc Hx. pose proof sweep_remove_ok as S. unfold sweep_remove in S.
-  assert (S1 := proj1 (forallb_forall _ _) S init ltac:(apply in_seq; lia)). cbv beta in S1.
-  assert (S2 := proj1 (forallb_forall _ _) S1 index ltac:(apply in_seq; lia)). cbv beta in S2.
-  assert (S' := proj1 (forallb_forall _ _) S2 cnt ltac:(apply in_seq; lia)). cbv beta in S'. destruct (Nat.leb_spec (index + cnt) init); [|lia].
-  destruct (check init init (remove_prog init index cnt)) as [m|]; [|discriminate S'].
-  f_equal. apply Nat.eqb_eq. exact S'.
+  intros Hx. unfold remove_prog. destruct (Nat.eqb_spec cnt 0) as [E0|N0]; [simpl; f_equal; lia|].
+  rewrite check_app. rewrite check_assign_list.
+  - simpl. destruct (Nat.leb_spec cnt init); [reflexivity|lia].
+  - apply Forall_forall. intros ins Hin. apply in_map_iff in Hin. destruct Hin as (i & <- & Hi).
+    apply in_seq in Hi. simpl. lia.
 Qed.
 
 Lemma insert_prog_no_remove init index items : no_remove (insert_prog init index items).
@@ -334,19 +376,18 @@ Proof.
   apply Forall_forall. intros x Hx. apply in_flat_map in Hx. destruct Hx as (y & _ & [<-|[<-|[]]]); exact I.
 Qed.
 
-(* array_basic (positional insert): for every category, every failure schedule, every array of up to 8 elements with
-   enough capacity, every index and every range of up to 4 items: InsertNogrow never touches a raw slot, and whether
+(* array_basic (positional insert): for every category, every failure schedule, every array (any size) with
+   enough capacity, every index and every inserted range (any length): InsertNogrow never touches a raw slot, and whether
    it completes or throws, the count is consistent -- every slot below count holds a constructed (live or moved-from)
    element, every slot at or above count is raw -- with  old count <= count <= old count + inserted. *)
 Theorem array_insert_basic c w vals cap index items w' a' o :
-  (length vals <= 8)%nat -> (index <= length vals)%nat -> (length items <= 4)%nat ->
-  (length vals + length items <= cap)%nat ->
+  (index <= length vals)%nat -> (length vals + length items <= cap)%nat ->
   run c w (mk_arr vals cap) (insert_prog (length vals) index items) = (w', a', o) ->
   o <> AStuck /\ wf a' /\ length (slots a') = cap /\
   (length vals <= count a')%nat /\ (count a' <= length vals + length items)%nat /\
   (o = AOk -> count a' = (length vals + length items)%nat).
 Proof.
-  intros Hv Hx Hi Hc H.
+  intros Hx Hc H.
   destruct (mk_arr_wf vals cap ltac:(lia)) as [Hwf Hl].
   assert (Hck : check (count (mk_arr vals cap)) (length (slots (mk_arr vals cap))) (insert_prog (length vals) index items)
                 = Some (length vals + length items)%nat).
@@ -366,12 +407,12 @@ Qed.
 
 (* array_basic (positional remove): as above; a failure leaves the count unchanged, success lowers it by cnt *)
 Theorem array_remove_basic c w vals cap index cnt w' a' o :
-  (length vals <= 8)%nat -> (cnt <= 4)%nat -> (index + cnt <= length vals)%nat -> (length vals <= cap)%nat ->
+  (index + cnt <= length vals)%nat -> (length vals <= cap)%nat ->
   run c w (mk_arr vals cap) (remove_prog (length vals) index cnt) = (w', a', o) ->
   o <> AStuck /\ wf a' /\ length (slots a') = cap /\
   (o = AOk -> count a' = (length vals - cnt)%nat) /\ (o = AExn -> count a' = length vals).
 Proof.
-  intros Hv Hc Hx Hcap H.
+  intros Hx Hcap H.
   destruct (mk_arr_wf vals cap Hcap) as [Hwf Hl].
   assert (Hck : check (count (mk_arr vals cap)) (length (slots (mk_arr vals cap))) (remove_prog (length vals) index cnt)
                 = Some (length vals - cnt)%nat).
